@@ -548,3 +548,153 @@ Section Corollaries.
     rewrite (do_run_history_independent r s fresh_rst w Id); [reflexivity|]. unfold idle, fresh_rst; cbn; auto.
   Qed.
 End Corollaries.
+
+(** ---- state predicates preserved by every piece of code ---- *)
+Section Preserve.
+  Variable P : prm.
+  Variable Q : rst -> Prop.
+  Hypothesis Q_icpt : forall b s, Q s -> Q (set_icpt b s).
+  Hypothesis Q_counter : forall c s, Q s -> Q (set_counter c s).
+  Hypothesis Q_enabled : forall b s, Q s -> Q (set_enabled b s).
+  Hypothesis Q_discard : forall s, Q s -> Q (fst (discard s)).
+  Hypothesis Q_force : forall s, Q s -> Q (do_force (p_ignore P) s).
+
+  Definition keeps (f : rst -> res) : Prop := forall s, Q s -> Q (snd (fst (f s))).
+
+  Lemma rec_in_call_keeps cf a kw body : keeps body -> keeps (rec_in_call cf a kw body).
+  Proof.
+    intros H s Qs. unfold rec_in_call.
+    destruct (should_intercept_rec s).
+    - destruct (input_keys cf a kw) as [keys|].
+      + pose proof (H (set_icpt true s) (Q_icpt _ _ Qs)) as Hb. destruct (body (set_icpt true s)) as [[o s1] l1].
+        cbn [fst snd] in Hb. pose proof (Q_icpt false _ Hb) as H2.
+        destruct o as [v|e|]; cbn [fst snd]; auto.
+        destruct (active (set_icpt false s1)); cbn [fst snd]; auto.
+        destruct (i_prep_discards cf).
+        * pose proof (Q_discard _ H2) as H3. destruct (discard (set_icpt false s1)) as [s3 lh]. cbn [fst] in H3.
+          destruct (prep_input _ _ _ _); cbn [fst snd]; auto.
+          pose proof (Q_discard _ H3) as H4. destruct (discard s3) as [s4 la]. exact H4.
+        * destruct (prep_input _ _ _ _); cbn [fst snd]; auto.
+          pose proof (Q_discard _ H2) as H4. destruct (discard (set_icpt false s1)) as [s4 la]. exact H4.
+      + pose proof (Q_discard _ Qs) as H0. destruct (discard s) as [s0 la]. cbn [fst] in H0.
+        pose proof (H (set_icpt true s0) (Q_icpt _ _ H0)) as Hb. destruct (body (set_icpt true s0)) as [[o s1] l1].
+        cbn [fst snd] in *. auto.
+    - pose proof (H s Qs) as Hb. destruct (body s) as [[o s1] l1]. exact Hb.
+  Qed.
+
+  Lemma rec_out_call_keeps cf a kw body : keeps body -> keeps (rec_out_call cf a kw body).
+  Proof.
+    intros H s Qs. unfold rec_out_call.
+    destruct (should_intercept_rec s).
+    - destruct (bump (o_alias cf) (counter s)) as [n cnt].
+      pose proof (Q_counter cnt _ Qs) as Q0.
+      destruct (out_datum cf a kw) as [d|].
+      + pose proof (H _ (Q_icpt true _ Q0)) as Hb. destruct (body (set_icpt true (set_counter cnt s))) as [[o s1] l1].
+        cbn [fst snd] in Hb. destruct o as [v|e|]; cbn [fst snd]; auto.
+      + pose proof (Q_discard _ Q0) as H1. destruct (discard (set_counter cnt s)) as [s1 la]. cbn [fst] in H1.
+        pose proof (H s1 H1) as Hb. destruct (body s1) as [[o s2] l1]. exact Hb.
+    - pose proof (H s Qs) as Hb. destruct (body s) as [[o s1] l1]. exact Hb.
+  Qed.
+
+  Theorem rec_exec_keeps : forall c env, keeps (rec_exec P c env).
+  Proof.
+    induction c as [e|ty| |cf body IHb args kwargs k IHk|cf body IHb args kwargs k IHk|c1 IH1 h IHh
+                    |k IHk|k IHk|b k IHk|key e k IHk|key k IHk]; intros env s Qs; cbn [rec_exec]; try exact Qs.
+    - pose proof (rec_in_call_keeps cf (map (eval env) args) (eval_kw env kwargs) _
+                    (IHb (body_env (map (eval env) args) (eval_kw env kwargs))) s Qs) as H.
+      unfold bind_val. destruct (rec_in_call _ _ _ _ s) as [[o s1] l1]. cbn [fst snd] in H.
+      destruct o as [v|e|]; auto. pose proof (IHk (env ++ [v]) s1 H) as H2.
+      destruct (rec_exec P k (env ++ [v]) s1) as [[o2 s2] l2]. exact H2.
+    - pose proof (rec_out_call_keeps cf (map (eval env) args) (eval_kw env kwargs) _
+                    (IHb (body_env (map (eval env) args) (eval_kw env kwargs))) s Qs) as H.
+      unfold bind_val. destruct (rec_out_call _ _ _ _ s) as [[o s1] l1]. cbn [fst snd] in H.
+      destruct o as [v|e|]; auto. pose proof (IHk (env ++ [v]) s1 H) as H2.
+      destruct (rec_exec P k (env ++ [v]) s1) as [[o2 s2] l2]. exact H2.
+    - pose proof (IH1 env s Qs) as H. unfold bind_exn. destruct (rec_exec P c1 env s) as [[o s1] l1]. cbn [fst snd] in H.
+      destruct o as [v|e|]; auto. pose proof (IHh env s1 H) as H2. destruct (rec_exec P h env s1) as [[o2 s2] l2]. exact H2.
+    - pose proof (Q_discard _ Qs) as H. destruct (discard s) as [s1 la]. cbn [fst] in H.
+      pose proof (IHk env s1 H) as H2. unfold prepend. destruct (rec_exec P k env s1) as [[o s2] l]. exact H2.
+    - apply IHk. apply Q_force. exact Qs.
+    - apply IHk. apply Q_enabled. exact Qs.
+    - pose proof (IHk env s Qs) as H2. unfold prepend. destruct (rec_exec P k env s) as [[o s2] l]. exact H2.
+    - apply IHk. exact Qs.
+  Qed.
+End Preserve.
+
+(** a class that ignores enforced sampling never gets the force flag set (C17) *)
+Theorem rec_exec_ignores_forcing P c env s :
+  p_ignore P = true -> force s = false -> force (snd (fst (rec_exec P c env s))) = false.
+Proof.
+  intros Ig F. apply (rec_exec_keeps P (fun s => force s = false)); auto.
+  - intros s0 F0. unfold discard. destruct (active s0); cbn; auto.
+  - intros s0 F0. unfold do_force. rewrite Ig. rewrite andb_false_r. exact F0.
+Qed.
+
+Section KeepPolicy.
+  Variable draws : nat -> Q.
+
+  Definition draws_spec (P : prm) (discarded forced : bool) : nat :=
+    if p_skipped P || discarded || forced || Qle_bool 1 (p_rate P) then 0%nat else 1%nat.
+
+  (** C17: the finalisation of a run is the documented function of (skipped, discarded, forced, rate, next draw)
+      and consumes a draw exactly when the draw decides; the program's content and outcome do not occur. *)
+  Theorem record_run_keep_policy P op sf s w :
+    active s = false ->
+    let '(ob, w') := record_run draws true P op sf s w in
+    let '(_, s1, l0) := rec_exec P (op_body op) [] (if p_skipped P then set_enabled true s
+                                                    else mk_rst true true (force s) (counter s) (icpt s)) in
+    let discarded := negb (Nat.eqb (aborts_of l0) 0) in
+    (p_skipped P = false -> discarded = negb (active s1)) /\
+    decision_of (w_next w) (ob_cass ob) = keep_spec P discarded (force s1) (draws (w_dpos w)) /\
+    w_dpos w' = (w_dpos w + draws_spec P discarded (force s1))%nat.
+  Proof.
+    intros A. pose proof (record_run_spec draws true P op sf s w A) as H.
+    destruct (record_run draws true P op sf s w) as [ob w']. cbn [negb orb] in H.
+    unfold keep_spec, draws_spec.
+    destruct (p_skipped P) eqn:Sk.
+    - destruct (rec_exec P (op_body op) [] (set_enabled true s)) as [[o s1] l0].
+      destruct H as (_ & _ & -> & -> & _). cbn. repeat split; auto. discriminate.
+    - destruct (rec_exec P (op_body op) [] _) as [[o s1] l0].
+      destruct H as (_ & _ & _ & _ & H). destruct (active s1) eqn:A1.
+      + destruct H as (B & _ & H). rewrite B. cbn [Nat.eqb negb orb].
+        unfold should_sample in H. destruct (force s1).
+        * destruct H as (-> & H). cbv zeta in H. destruct (sf || negb _); destruct H as (-> & _); cbn; auto.
+        * destruct (Qle_bool 1 (p_rate P)).
+          -- destruct H as (-> & H). cbv zeta in H. destruct (sf || negb _); destruct H as (-> & _); cbn; auto.
+          -- destruct H as (-> & H). destruct (Qle_bool (draws (w_dpos w)) (p_rate P)).
+             ++ cbv zeta in H. destruct (sf || negb _); destruct H as (-> & _); cbn; auto.
+             ++ destruct H as (-> & _). cbn. auto.
+      + destruct H as (B & _ & F & _ & -> & _ & ->). rewrite B. cbn. repeat split; auto.
+  Qed.
+End KeepPolicy.
+
+(** C17: over N equally spaced draws 0/N .. (N-1)/N, exactly floor(rate*N)+1 fall within a rate 0 <= rate < 1 *)
+Lemma count_le_seq M : forall N, length (filter (fun k => Nat.leb k M) (seq 0 N)) = Nat.min N (S M).
+Proof.
+  induction N as [|N IH]; [reflexivity|].
+  rewrite seq_S, filter_app, app_length, IH. cbn [filter plus].
+  destruct (Nat.leb N M) eqn:E; cbn [length].
+  - apply Nat.leb_le in E. lia.
+  - apply Nat.leb_gt in E. lia.
+Qed.
+
+Theorem kept_fraction (p q N : positive) :
+  (Zpos p < Zpos q)%Z ->
+  length (filter (fun k => Qle_bool (Z.of_nat k # N) (Zpos p # q)) (seq 0 (Pos.to_nat N))) =
+  S (Z.to_nat ((Zpos p * Zpos N) / Zpos q)).
+Proof.
+  intros Hpq.
+  set (M := Z.to_nat ((Zpos p * Zpos N) / Zpos q)).
+  rewrite (filter_ext _ (fun k => Nat.leb k M)).
+  - rewrite count_le_seq.
+    assert (Z.of_nat M < Zpos N)%Z.
+    { subst M. rewrite Z2Nat.id by (apply Z.div_pos; lia).
+      apply Z.div_lt_upper_bound; nia. }
+    lia.
+  - intros k. unfold Qle_bool. cbn [Qnum Qden]. subst M.
+    destruct (Z.leb_spec (Z.of_nat k * Zpos q) (Zpos p * Zpos N)) as [L|L]; symmetry.
+    + apply Nat.leb_le. apply Nat2Z.inj_le. rewrite Z2Nat.id by (apply Z.div_pos; lia).
+      apply Z.div_le_lower_bound; lia.
+    + apply Nat.leb_gt. apply Nat2Z.inj_lt. rewrite Z2Nat.id by (apply Z.div_pos; lia).
+      apply Z.div_lt_upper_bound; lia.
+Qed.
